@@ -71,7 +71,7 @@ SPEC = {
   "include'": (None, [PG]), "versionString": (None, [PG]), "hardwareQubit": (None, [PG]),
   "varName": (None, [f"{at('IDENT')} → {PG}"]), "identifier": (None, [f"{at('IDENT')} → {PG}"]),
   "literal": (None, [f"{SOME} → {PG}", f"r = none → {SAME}"]),
-  "atListEndToken": (None, ["s' = s"]),
+  "atListEndToken": (None, [SAME]),
   "paramUntyped": (None, [f"r = true → {PG}"]), "paramUntypedOrHardwareQubit": (None, [f"r = true → {PG}"]),
   # mutual block
   "optReturnSignature": (None, []), "delimited": (None, [f"consumeBraket = true → {PG}"]),
@@ -133,8 +133,9 @@ def post(name):
     return " ∧ ".join(["Adv s s'"] + [f"({c})" for c in SPEC[name][1]])
 
 def pre(name, fuel):
+    """`rank + K * (tokens left) ≤ fuel`, stated without subtraction (the position is inside the input)"""
     tp = SPEC[name][0]
-    a = f"{rank(name)} + {K} * (s.kinds.size - s.pos) ≤ {fuel}"
+    a = f"{rank(name)} + {K} * s.kinds.size ≤ {fuel} + {K} * s.pos ∧ s.pos ≤ s.kinds.size"
     return a if tp is None else f"{a} ∧ {tp}"
 
 HDR = "/- GENERATED by /verif/tools/gen_grammar_progress.py from Oq3/Model/Grammar.lean — the proofs are checked by Lean. -/\n"
@@ -148,7 +149,7 @@ def gen():
         for f in FLAVORS:
             o.append(f"  | .{f} => {R[node + '@' + f]}")
         o.append("")
-    o.append("macro_rules | `(tactic| pg_norm) => `(tactic| try simp only [rkList, rkLoop, rkItem] at *)\n")
+    o.append("macro_rules | `(tactic| pg_norm) => `(tactic| try simp only [rkList, rkLoop, rkItem])\n")
     ops = open(os.path.join(root, "lean/Oq3/Gen/Ops.lean"), encoding="utf-8").read()
     composite = set(re.findall(r"^  \(\.([A-Z_0-9]+), \[", ops, flags=re.M))
     kinds = sorted((set(re.findall(r"(?:at'|eat|expect|bump) \.([A-Z_0-9]+)", src)) | {"EOF"}) - composite)
@@ -164,7 +165,7 @@ def gen():
         if name in MANUAL:
             continue
         ns = binder_names(b)
-        tp = SPEC[name][0] or "True"
+        tp = "s.pos ≤ s.kinds.size" + (f" ∧ {SPEC[name][0]}" if SPEC[name][0] else "")
         o.append(f"theorem {name}_prog {b} (s : P) (hpre : {tp}) :")
         o.append(f"    wp A3 ({name} {' '.join(ns)}) (fun r s' => {post(name)}) s := by\n  unfold {name}; pg\n")
     o.append("/-- all functions of the mutual block at one fuel level -/")
